@@ -353,8 +353,10 @@ def apply_bound(ex, st, k, args, site):
         if p.name in args and p.kind.tag != 'val':
             args[p.name] = _typed(args[p.name], p.kind, st)
     outs = []
-    post = st.copy()
-    if k.traced is not None: ex.emit(post, k.traced(args, post))
+    st1 = st
+    if k.traced is not None:
+        st1 = st.copy(); ex.emit(st1, k.traced(args, st1))     # the call is part of the trace whatever its outcome
+    post = st1.copy()
     havoc(post, k)
     result = k.result.fresh('ret') if k.result is not None else P_NONE
     cl = k.clauses(args, st, post, result)
@@ -368,7 +370,7 @@ def apply_bound(ex, st, k, args, site):
     never = any(z3.is_false(z3.simplify(f)) for _, f in cl.ensures if is_expr(f))
     if not never and ex.feasible(post): outs.append((post, result))
     for rc in cl.raises:
-        s2 = st.copy()
+        s2 = st1.copy()
         if not rc.unchanged: havoc(s2, k)
         if getattr(rc, 'impose', None) is not None: rc.impose(View(st, args), View(s2, args))
         if rc.when is not None: s2.assume(rc.when)
